@@ -178,10 +178,11 @@ namespace BitSerializer::Convert::Utf
 				}
 
 				int tails = 0;
+				uint32_t minSym = 0;	// The smallest code point that needs a sequence of this length (less means an overlong form)
 				bool isWrongSeq = false;
-				if ((sym & 0b11100000) == 0b11000000) { tails = 2; sym &= 0b00011111; }
-				else if ((sym & 0b11110000) == 0b11100000) { tails = 3; sym &= 0b00001111; }
-				else if ((sym & 0b11111000) == 0b11110000) { tails = 4; sym &= 0b00000111; }
+				if ((sym & 0b11100000) == 0b11000000) { tails = 2; sym &= 0b00011111; minSym = 0x80; }
+				else if ((sym & 0b11110000) == 0b11100000) { tails = 3; sym &= 0b00001111; minSym = 0x800; }
+				else if ((sym & 0b11111000) == 0b11110000) { tails = 4; sym &= 0b00000111; minSym = 0x10000; }
 				// Overlong sequence (was prohibited in the RFC 3629 since November 2003)
 				else if ((sym & 0b11111100) == 0b11111000) { isWrongSeq = true; tails = 5; }
 				else if ((sym & 0b11111110) == 0b11111100) { isWrongSeq = true; tails = 6; }
@@ -193,28 +194,38 @@ namespace BitSerializer::Convert::Utf
 				// Decode following tails
 				for (; tails > 1; --tails)
 				{
-					if (in == end) {
+					if (in == end)
+					{
+						// A sequence that is already known to be malformed is reported as invalid, not as cropped
+						if (isWrongSeq) {
+							break;
+						}
 						return UtfEncodingResult(UtfEncodingErrorCode::UnexpectedEnd, startTailPos, invalidSequencesCount);
 					}
 
-					if (!isWrongSeq)
+					const auto nextTail = static_cast<uint8_t>(*in);
+					if ((nextTail & 0b11000000) == 0b10000000)
 					{
-						const auto nextTail = static_cast<uint8_t>(*in);
-						if ((nextTail & 0b11000000) == 0b10000000)
+						if (!isWrongSeq)
 						{
 							sym <<= 6;
 							sym |= nextTail & 0b00111111;
 						}
-						// When tail has bad signature
-						else {
-							isWrongSeq = true;
+					}
+					// When tail has bad signature
+					else
+					{
+						isWrongSeq = true;
+						// Do not swallow a byte that can start a well-formed sequence (ASCII or lead bytes C2..F4)
+						if (nextTail < 0x80 || (nextTail >= 0xC2 && nextTail <= 0xF4)) {
+							break;
 						}
 					}
 					++in;
 				}
 
-				// Error handling when wrong sequence or when surrogate pair (prohibited in the UTF-8)
-				if (isWrongSeq || UnicodeTraits::IsInSurrogatesRange(sym))
+				// Error handling when wrong sequence, overlong form, out of Unicode range or when surrogate pair (prohibited in the UTF-8)
+				if (isWrongSeq || sym < minSym || sym > 0x10FFFF || UnicodeTraits::IsInSurrogatesRange(sym))
 				{
 					++invalidSequencesCount;
 					if (!Detail::HandleEncodingError(outStr, errorPolicy, errorMark)) {
